@@ -74,6 +74,10 @@ class C10(Check):
                 s['mandatory_prop'] = True
             if rng.random() < 0.3:
                 s['needscfg'] = f'p{len(s["params"])}'
+                # (a value is required from the configuration also when the class has a default; giving only
+                # properties of the parameter, or a default, is no value)
+                s['needscfg_default'] = rng.random() < 0.5
+                s['needscfg_omit'] = rng.choice(['nothing', 'props', 'default'])
             if rng.random() < 0.25:
                 s['optional'] = True
             specs.append(s)
@@ -203,6 +207,10 @@ class C10(Check):
                 kw.append("need = 'given'")
             if 'needscfg_value' in cfg and 'needscfg' not in errs:
                 kw.append(f'{spec["needscfg"]} = {cfg["needscfg_value"]}')
+            elif 'needscfg_value' in cfg and spec.get('needscfg_omit') == 'props':
+                kw.append(f'{spec["needscfg"]} = Param(max = 800)')
+            elif 'needscfg_value' in cfg and spec.get('needscfg_omit') == 'default':
+                kw.append(f'{spec["needscfg"]} = Param(default = 7)')
             byname = {p['name']: p for p in spec['params']}
             for e in cfg['entries']:
                 p = byname[e['p']]
@@ -279,7 +287,7 @@ class C10(Check):
             if spec.get('needscfg'):
                 from frappy.core import Parameter, IntRange
                 extra[spec['needscfg']] = Parameter('needs a configured value', IntRange(0, 1000), needscfg=True,
-                                                    readonly=False)
+                                                    readonly=False, **({'default': 5} if spec.get('needscfg_default') else {}))
             if extra:
                 extra['__module__'] = cls.__module__
                 cls = type(cls.__name__ + 'X', (cls,), extra)
